@@ -41,6 +41,17 @@ impl fmt::Debug for TaskManager {
 	}
 }
 
+/// Clears a task's `running` flag when dropped, which includes the task
+/// unwinding from a panic in flush / compaction: `stop()` waits for the flag
+/// without a time limit, so a flag left set would block `close()` for ever.
+struct ClearOnDrop(Arc<AtomicBool>);
+
+impl Drop for ClearOnDrop {
+	fn drop(&mut self) {
+		self.0.store(false, Ordering::SeqCst);
+	}
+}
+
 impl TaskManager {
 	pub(crate) fn new(
 		core: Arc<dyn CompactionOperations>,
@@ -73,6 +84,7 @@ impl TaskManager {
 					}
 
 					running.store(true, Ordering::SeqCst);
+					let running_guard = ClearOnDrop(Arc::clone(&running));
 					log::debug!("Memtable flush task starting");
 
 					// Flush ALL pending immutable memtables in a loop
@@ -108,7 +120,7 @@ impl TaskManager {
 						log::debug!("Memtable flush task: no immutables to flush");
 					}
 
-					running.store(false, Ordering::SeqCst);
+					drop(running_guard);
 
 					// wake_up_memtable() is silent while `running` is set. A memtable
 					// rotated after our last look at the queue but before the flag was
@@ -139,6 +151,7 @@ impl TaskManager {
 					}
 
 					running.store(true, Ordering::SeqCst);
+					let running_guard = ClearOnDrop(Arc::clone(&running));
 					log::debug!("Level compaction task starting");
 
 					// Use leveled compaction strategy
@@ -152,7 +165,7 @@ impl TaskManager {
 						log::debug!("Level compaction completed successfully");
 						write_stall.signal_work_done();
 					}
-					running.store(false, Ordering::SeqCst);
+					drop(running_guard);
 				}
 			});
 			task_handles.lock().unwrap().as_mut().unwrap().push(handle);
